@@ -45,14 +45,15 @@ Section INV.
 
   Definition empty0 : hm := HM 0 false 0 0 [] None.
 
-  (* the states of the model reached from New(hint) by Set / SetOrUpdate / Merge(any reachable source) *)
+  (* the states of the model reached from New(hint) by Set / SetOrUpdate / Merge(any reachable source) / Clear *)
 End INV.
 
 Inductive reach : (key -> N) -> hm -> Prop :=
 | r_new hash hint : reach hash (new_hint hint)
 | r_set hash m k v m' : reach hash m -> set hash m k v = Ok m' -> reach hash m'
 | r_upd hash m k d m' : reach hash m -> set_or_update hash m k d = Ok m' -> reach hash m'
-| r_merge hash hs m s m' : reach hash m -> reach hs s -> merge hash hs m s = Ok m' -> reach hash m'.
+| r_merge hash hs m s m' : reach hash m -> reach hs s -> merge hash hs m s = Ok m' -> reach hash m'
+| r_clear hash m : reach hash m -> reach hash (clear m).
 
 (* the additive update of the specification *)
 Definition upsert (M : gmap key val) (k : key) (d : val) : gmap key val :=
